@@ -179,14 +179,14 @@ func verifC04ServerFormat(long bool) {
 	where := zzverif.Choice("where", c04WhereKinds)
 	maxPlaces := 3
 	if long {
-		maxPlaces = 6
+		maxPlaces = 4
 	}
 	f := c04PickFormat("fmt", maxPlaces)
 
 	// the document: one transaction, the first posting in EUR with symbolic digits
 	ni, nfs := 2, []int{0, 2, 4}
 	if long {
-		ni, nfs = 1+zzverif.Choice("ni", 4), []int{0, 1, 2, 3, 4, 6}
+		ni, nfs = 1+zzverif.Choice("ni", 4), []int{0, 2, 3, 4, 5}
 	}
 	nf := nfs[zzverif.Choice("nf", len(nfs))]
 	ip := zzverif.Text("i0", "123456789", 1) + zzverif.Digits("i", ni-1)
@@ -237,15 +237,9 @@ func verifC04ServerFormat(long bool) {
 		_, _ = s.Initialize(ctx, &protocol.InitializeParams{})
 	}
 	st := s.getSettings()
-	nopt := 2
-	if long {
-		nopt = 3
-	}
-	switch zzverif.Choice("opt", nopt) {
-	case 1:
+	// the options come from the settings: the defaults, or indent 7 with a minimum column
+	if zzverif.Choice("opt", 2) == 1 {
 		st.Formatting.IndentSize, st.Formatting.AlignAmounts, st.Formatting.MinAlignmentColumn = 7, true, 30
-	case 2:
-		st.Formatting.IndentSize, st.Formatting.AlignAmounts, st.Formatting.MinAlignmentColumn = 2, false, 0
 	}
 	s.setSettings(st)
 	_ = s.Initialized(ctx, &protocol.InitializedParams{})
